@@ -230,6 +230,23 @@ impl Gen {
                 self.decl(r, txt);
                 self.target(What::ResFunc(f), r);
             }
+            22 => {
+                // physical type with a primary and a secondary unit
+                let t = self.ent("ph", "type", owner, None, el);
+                let u0 = self.ent("ua", "other", owner, None, el);
+                let u1 = self.ent("ub", "other", owner, None, el);
+                let txt = format!(
+                    "{}type {} is range 0 to 1000 units {}; {} = 10 {}; end units;\n",
+                    ind,
+                    self.d(t),
+                    self.d(u0),
+                    self.d(u1),
+                    self.r(u0, "physical_unit_in_secondary_unit")
+                );
+                self.decl(r, txt);
+                self.target(What::PhysType(t, u0), r);
+                self.target(What::PhysUnit(u1, t), r);
+            }
             _ => {
                 let k = self.rng.below(3);
                 self.declare_item(r, k)
@@ -430,6 +447,22 @@ impl Gen {
                 let e = move |g: &Gen, s: &str| g.r(o, s);
                 let sig_t: Option<&dyn Fn(&Gen, &str) -> String> = if matches!(oc, Oc::Signal | Oc::PortOut | Oc::Alias(_, true)) && rk != Rk::PkgHead { Some(&e) } else { None };
                 let var_t: Option<&dyn Fn(&Gen, &str) -> String> = if matches!(oc, Oc::Variable) { Some(&e) } else { None };
+                if oc == Oc::Signal && rk != Rk::PkgHead && self.rng.chance(1, 8) {
+                    let which = self.rng.below(3);
+                    let mk = move |g: &mut Gen, _pr: usize, kv: usize| -> String {
+                        match which {
+                            0 => format!("    {} <= release;\n", g.r(o, "release_target")),
+                            1 => format!("    {} <= force 1;\n", g.r(o, "force_target")),
+                            _ => format!("    {} := {}'delayed(1 ns);\n", g.r(kv, "sink_target"), g.r(o, "attr_prefix_signal")),
+                        }
+                    };
+                    if self.regions[r].kind == Rk::Entity {
+                        return false;
+                    }
+                    self.seq_place(r, &mk);
+                    self.site_stats.push(["release_target", "force_target", "attr_prefix_signal"][which].into());
+                    return true;
+                }
                 if oc == Oc::PortOut {
                     // not readable (VHDL-93 style): only as target
                     return self.int_site_conc(r, "csa_target", &e, false, sig_t);
@@ -564,7 +597,7 @@ impl Gen {
                     self.target(What::Func(a), r);
                     return true;
                 }
-                if self.rng.chance(1, 8) {
+                if self.rng.chance(1, 8) && self.ents[f].parent == self.owner_of(r) && self.ents[f].kind == "over" {
                     return self.attr_spec_subprogram(r, f);
                 }
                 let named = self.rng.chance(1, 4);
@@ -652,6 +685,14 @@ impl Gen {
                     let e = move |g: &Gen, s: &str| format!("{}((1, 2))", g.r(f, s));
                     self.int_site(r, &e, false, None, None)
                 }
+            }
+            What::PhysType(t, u0) => {
+                let v = format!("1 {}", self.r(u0, "physical_literal_unit"));
+                self.type_site(r, t, &v, "phys")
+            }
+            What::PhysUnit(u, t) => {
+                let e = move |g: &Gen, s: &str| format!("{}'pos(3 {})", g.r(t, "attr_prefix_type"), g.r(u, s));
+                self.int_site(r, &e, true, None, None)
             }
             What::Label(_) => false,
         }
@@ -990,6 +1031,12 @@ fn gen_entity_group(g: &mut Gen) -> Vec<(String, String)> {
     g.regions[er].mid = "begin\n".into();
     g.regions[er].tail = if g.rng.chance(1, 2) { format!("end entity {};\n", g.raw(e)) } else { "end entity;\n".into() };
 
+    let mut flip_rng = g.rng.fork();
+    for t in g.targets.iter_mut() {
+        if t.region == er && flip_rng.chance(1, 2) {
+            t.region = ar;
+        }
+    }
     g.regions[ar].head = format!("architecture {} of {} is\n", g.d(a), g.r(e, "architecture_entity_name"));
     g.regions[ar].mid = "begin\n".into();
     g.regions[ar].tail = if g.rng.chance(1, 2) { format!("end architecture {};\n", g.raw(a)) } else { "end architecture;\n".into() };
